@@ -118,6 +118,10 @@ def run_shard(shard, ctx):
                 ctx.case(cid)
                 if ctx.evaluations % 200 == 1:
                     ctx.sample({'config': name, 'op': op, 'keys_in': [list(k) for k in keysets], 'keys_out': list(r.keys())})
+                # the same object after an in-place coefficient update
+                if kx and ctx.rng.random() < 0.06:
+                    call = {'sw': lambda x, y: x.sw(y), 'proj': lambda x, y: x.proj(y), 'normsq': lambda x: x.normsq()}[op]
+                    ops.check_inplace_staleness(ctx, alg, cfg, call, kx, cid, op, other_keys=None if op == 'normsq' else ky, timeout=to)
                 # the same operator reached through the reflected entry point (left operand not a multivector)
                 if op in ('sw', 'proj') and ctx.rng.random() < 0.15:
                     sym = {'sw': '>>', 'proj': '@'}[op]
